@@ -18,7 +18,8 @@ IsEvent(e) == More /\ Ev.e = e /\ l' = l + 1
 Obs0 == [phase |-> "idle", hung |-> {}, extra |-> 0, touched |-> 0, shown |-> TRUE, n |-> 0, nsame |-> 0,
          stop |-> "none", stopdel |-> FALSE, pause |-> FALSE, silence |-> FALSE, left |-> 0,
          ms |-> [r \in Roles |-> 0], since |-> [r \in Roles |-> -1], npresent |-> 0, keptok |-> TRUE,
-         timeout |-> 0, run |-> -1, fkind |-> "none", prehs |-> FALSE]
+         timeout |-> 0, run |-> -1, fkind |-> "none", prehs |-> FALSE,
+         pdata |-> 0, pkeep |-> 0, dataafter |-> 0, pausems |-> 0]
 
 (* one abstract one-block file stands for the whole named tree: DstSame(1) <=> every entry same *)
 OneFile == <<[dir |-> FALSE, size |-> 1, comp |-> FALSE]>>
@@ -37,6 +38,7 @@ TInit ==
     /\ rdig = Empty /\ fileOK = [r \in Roles |-> {}] /\ stopped = [r \in Roles |-> "no"]
     /\ dst = [f \in 1..1 |-> Empty] /\ made = {} /\ result = [r \in Roles |-> "run"]
     /\ faults = 0 /\ told = [r \in Roles |-> FALSE]
+    /\ paused = FALSE /\ npause = 0 /\ quiet = 0 /\ maxquiet = 0
     /\ l = 1 /\ obs = Obs0
 
 TReset ==
@@ -70,7 +72,8 @@ TFs ==
     /\ made' = IF Ev.n > 0 /\ Ev.nsame > 0 THEN {1} ELSE {}
     /\ dst' = [f \in 1..1 |-> IF Ev.allsame THEN Src(1) ELSE Cont(0, FALSE)]
     /\ obs' = [obs EXCEPT !.phase = "judged", !.extra = Ev.extra, !.touched = Ev.touched, !.shown = Ev.shown,
-                          !.n = Ev.n, !.nsame = Ev.nsame, !.npresent = Ev.npresent, !.keptok = Ev.keptok]
+                          !.n = Ev.n, !.nsame = Ev.nsame, !.npresent = Ev.npresent, !.keptok = Ev.keptok,
+                          !.pdata = Ev.pdata, !.pkeep = Ev.pkeep, !.dataafter = Ev.dataafter, !.pausems = Ev.pausems]
     /\ UNCHANGED <<cf, chan, dead, pc, fi, rem, outst, sdig, got, ackq, fin, rsize, rdig, result, fileOK, stopped,
                    faults, told>>
 
@@ -80,7 +83,7 @@ TLeft ==
     /\ UNCHANGED vars
 
 TNext == TReset \/ TSkip \/ TRet \/ TFs \/ TLeft
-TSpec == TInit /\ [][TNext]_tvars
+TSpec == TInit /\ [][TNext /\ UNCHANGED PauseVars]_tvars
 
 -----------------------------------------------------------------------------
 Judged == obs.phase = "judged"
@@ -113,6 +116,17 @@ Faulted == obs.silence
 ObsReturnInTime == (Judged /\ Faulted) => (obs.hung = {} /\ \A r \in Roles : obs.since[r] <= FaultBoundMs)
 ObsPeerTold == (Judged /\ Faulted /\ \E r \in Roles : result[r] = "fail") => \E r \in Roles : told[r]
 ObsNoWorkerLeft == Judged => obs.left = 0
+
+(* C18.  A pause clearly shorter than the time-out (<= half of it) must not break the transfer;   *)
+(* any pause: no hang, no false success; while paused at most the one chunk that had already     *)
+(* passed its pause check is written, and keep-alive lines flow when data remains to be sent.    *)
+Paused == obs.pause
+ShortPause == obs.pausems * 2 <= obs.timeout * 1000
+ObsShortPauseCompletes == (Judged /\ Paused /\ ShortPause) => (obs.hung = {} /\ \A r \in Roles : result[r] = "ok")
+PauseBoundMs == obs.pausems * 3 + 2 * obs.timeout * 1000 + 1500 + 8000
+ObsPauseNoHang == (Judged /\ Paused) => (obs.hung = {} /\ \A r \in Roles : obs.since[r] <= PauseBoundMs)
+ObsNoDataWhilePaused == (Judged /\ Paused) => obs.pdata <= 1
+ObsKeepAlive == (Judged /\ Paused /\ cf.upload /\ obs.dataafter > 0 /\ obs.pausems >= 500) => obs.pkeep >= 1
 
 HW == IF l > TLCGet(1) THEN TLCSet(1, l) ELSE TRUE
 ASSUME TLCSet(1, 0)
